@@ -136,6 +136,23 @@ fn cfg_json<C: Config>(profile: &str) -> Value {
     })
 }
 
+// CPU watchdog: a case normally needs micro- to milliseconds of CPU; if the code under test does not terminate, the process is
+// killed by SIGVTALRM after WATCHDOG_S seconds of its own user CPU time (independent of machine load) and the running case is
+// reported like any other crash.  Re-armed whenever a case marker is written.
+#[repr(C)] struct TimeVal { sec: i64, usec: i64 }
+#[repr(C)] struct ITimerVal { interval: TimeVal, value: TimeVal }
+extern "C" { fn setitimer(which: i32, new: *const ITimerVal, old: *mut ITimerVal) -> i32; }
+const WATCHDOG_S: i64 = 30;
+fn arm_watchdog() {
+    let t = ITimerVal { interval: TimeVal { sec: 0, usec: 0 }, value: TimeVal { sec: WATCHDOG_S, usec: 0 } };
+    unsafe { setitimer(1 /* ITIMER_VIRTUAL */, &t, std::ptr::null_mut()); }
+}
+
+fn disarm_watchdog() {
+    let t = ITimerVal { interval: TimeVal { sec: 0, usec: 0 }, value: TimeVal { sec: 0, usec: 0 } };
+    unsafe { setitimer(1, &t, std::ptr::null_mut()); }
+}
+
 struct Node { id: i64, parent: i64, act: Value }
 
 fn load_cases(path: &str) -> Vec<Node> {
@@ -241,6 +258,7 @@ fn replay<C: Config>(cases: &str, out: &str, shard: (usize, usize), nvecs: usize
         chain.reverse();
         writeln!(marks, "{}", n.id).unwrap();
         marks.flush().unwrap();
+        arm_watchdog();
         let ppos = if par[k] == usize::MAX { 1 } else { posof[par[k]] };
         // ---- the judged, fault-free execution
         let run_prefix = |postsig: &Vec<u64>, nondet: &mut u64, nondet_at: &mut Vec<(i64, i64)>, check: bool| -> World<C> {
@@ -278,6 +296,7 @@ fn replay<C: Config>(cases: &str, out: &str, shard: (usize, usize), nvecs: usize
             for f in 1..=ncalls {
                 writeln!(marks, "{}", n.id).unwrap();
                 marks.flush().unwrap();
+                arm_watchdog();
                 let mut world = run_prefix(&postsig, &mut nondet, &mut nondet_at, false);
                 reg::set_countdown(f as i64);
                 let (o, cbs, ovf) = world.step(&n.act);
@@ -318,6 +337,7 @@ fn replay<C: Config>(cases: &str, out: &str, shard: (usize, usize), nvecs: usize
             }
         }
     }
+    disarm_watchdog();
     // positions are final: compute kids and write
     let total = evs.len();
     let mut kidsv: Vec<Vec<usize>> = vec![vec![]; total + 2];
@@ -498,6 +518,7 @@ fn random_run<C: Config>(out: &str, seed: u64, steps: usize, maxlen: usize, nvec
         };
         writeln!(marks, "{}", step + 1).unwrap();
         marks.flush().unwrap();
+        arm_watchdog();
         // fault injection (C06 on long histories): now and then the k-th invocation of user code inside the action panics
         let inject = faultpct > 0 && rng.chance(faultpct);
         let fk = match rng.below(20) { 0..=11 => 1, 12..=16 => 2, _ => 3 };
@@ -516,6 +537,7 @@ fn random_run<C: Config>(out: &str, seed: u64, steps: usize, maxlen: usize, nvec
         ev["kids"] = if last { json!([]) } else { json!([step + 3]) };
         writeln!(w, "{}", ev).unwrap();
     }
+    disarm_watchdog();
     w.flush().unwrap();
     writeln!(marks, "FAULTS 0").unwrap();
     writeln!(marks, "DONE {} 0", steps).unwrap();
